@@ -3,9 +3,10 @@
 import os
 import sys
 
-if os.environ.get("PYTHONHASHSEED") != "0":
-    # one fixed hash seed for the whole process tree (determinism is also self-tested under others)
-    os.environ["PYTHONHASHSEED"] = "0"
+_want = os.environ.get("VERIF_HASHSEED", "0")
+if os.environ.get("PYTHONHASHSEED") != _want:
+    # one fixed hash seed for the whole process tree (selftest/determinism.py runs under others)
+    os.environ["PYTHONHASHSEED"] = _want
     os.execv(sys.executable, [sys.executable] + sys.argv)
 sys.dont_write_bytecode = True
 sys.path.insert(0, os.path.dirname(os.path.abspath(__file__)))
